@@ -77,6 +77,13 @@ fn judge_call(cfg: &TrkCfg, scene: u64, now: usize, dets: &[Det], recs: &[Rec], 
             ((area - geom::covered_area(&polys[i], &others)) / area).clamp(0.0, 1.0)
         })
         .collect();
+    // the votes are counted over the features a track may hold: at most visual_max_observations of them
+    for t in pre {
+        let n = t.obs0.iter().filter(|o| o.3.is_some()).count();
+        if n > v.max_obs {
+            return Judgement::Bad("visual/votes-from-a-gallery-over-capacity".into(), format!("track {} holds {n} appearance features before the call, visual_max_observations = {}: features that should have been evicted take part in the voting", t.id, v.max_obs));
+        }
+    }
     let mut undecided = false;
     // stream of feature values
     let (thr, is_cos) = match v.metric {
